@@ -611,11 +611,21 @@ type XCase struct {
 	FillerAfter    int
 	CancelInFiller bool
 	ReadErr        int // with CutAt: what the reader returns at the cut (see Case.ReadErr)
+	FillerKind     int // index into fillerText
 }
 
-func xmlDoc(n int) ([]byte, []int) { d, e, _ := xmlDocFiller(n, 0, 0); return d, e }
+func xmlDoc(n int) ([]byte, []int) { d, e, _ := xmlDocFiller(n, 0, 0, 0); return d, e }
 
-func xmlDocFiller(n, filler, fillerAfter int) ([]byte, []int, int) {
+// what a stretch without OSM objects consists of: comments and unknown
+// elements; comments, processing instructions and whitespace only (no element
+// at all); unknown empty elements only
+var fillerText = []string{
+	" <!-- nothing to see here, move along -->\n <meta osm_base=\"x\"><extra a=\"1\"/>text</meta>\n",
+	" <!-- nothing to see here, move along -->\n <?render hint=\"none\"?>\n      \n",
+	" <extra a=\"1\"/>\n",
+}
+
+func xmlDocFiller(n, filler, fillerAfter, fillerKind int) ([]byte, []int, int) {
 	var b bytes.Buffer
 	var ends []int
 	fillerStart := -1
@@ -624,7 +634,7 @@ func xmlDocFiller(n, filler, fillerAfter int) ([]byte, []int, int) {
 		if filler > 0 && i == fillerAfter+1 {
 			fillerStart = b.Len()
 			for b.Len()-fillerStart < filler {
-				b.WriteString(" <!-- nothing to see here, move along -->\n <meta osm_base=\"x\"><extra a=\"1\"/>text</meta>\n")
+				b.WriteString(fillerText[fillerKind%len(fillerText)])
 			}
 		}
 		switch i % 3 {
@@ -640,7 +650,7 @@ func xmlDocFiller(n, filler, fillerAfter int) ([]byte, []int, int) {
 	if filler > 0 && fillerAfter >= n {
 		fillerStart = b.Len()
 		for b.Len()-fillerStart < filler {
-			b.WriteString(" <!-- nothing to see here, move along -->\n <meta osm_base=\"x\"><extra a=\"1\"/>text</meta>\n")
+			b.WriteString(fillerText[fillerKind%len(fillerText)])
 		}
 	}
 	b.WriteString("</osm>\n")
@@ -665,7 +675,7 @@ var lastX outcome
 // stretch without objects; the scan must stop there, not at the next object.
 func checkCancelInFiller(c XCase) error {
 	fa := c.FillerAfter % (c.N + 1)
-	doc, _, fillerStart := xmlDocFiller(c.N, c.Filler, fa)
+	doc, _, fillerStart := xmlDocFiller(c.N, c.Filler, fa, c.FillerKind)
 	ctx, cancel := context.WithCancel(context.Background())
 	defer cancel()
 	cancelled := make(chan struct{})
@@ -715,7 +725,7 @@ func checkXML(c XCase) error {
 	if c.CancelInFiller && c.Filler >= 20000 { // the stretch must outlast the decoder's read-ahead (4 KiB + chunk) past the cancel point
 		return checkCancelInFiller(c)
 	}
-	doc, ends, _ := xmlDocFiller(c.N, c.Filler, c.FillerAfter%(c.N+1))
+	doc, ends, _ := xmlDocFiller(c.N, c.Filler, c.FillerAfter%(c.N+1), c.FillerKind)
 	total := c.N
 	truncated := false
 	if c.CutAt > 0 {
@@ -864,7 +874,7 @@ func checkXML(c XCase) error {
 func TestXMLStop(t *testing.T) {
 	harness.Run(t, harness.Spec[XCase]{
 		Name: "xml-stop", N: 1000,
-		Rule: "the same call-history machine against osmxml.Scanner on documents of 1..400 elements (20% truncated - the reader ending with io.EOF, a transport error, or a transport error wrapping io.EOF -, a third with a 2-200 KB stretch of comments/unknown elements): k Scans, Close / cancel / nothing, or cancellation from a second goroutine issued from inside Read while Scan is skipping that stretch (Scan must stop there, Err = context canceled, bounded further reads), then Scan/Err/Close calls; oracle = same Err precedence model, every Scan after the stop false, no read from the reader after the stop, bytes read bounded by the last delivered element + decoder buffering; non-trivial = stop strictly inside the document",
+		Rule: "the same call-history machine against osmxml.Scanner on documents of 1..400 elements (20% truncated - the reader ending with io.EOF, a transport error, or a transport error wrapping io.EOF -, a third with a 2-200 KB stretch without objects: comments and unknown elements, or comments, processing instructions and whitespace only, or unknown empty elements only): k Scans, Close / cancel / nothing, or cancellation from a second goroutine issued from inside Read while Scan is skipping that stretch (Scan must stop there, Err = context canceled, bounded further reads), then Scan/Err/Close calls; oracle = same Err precedence model, every Scan after the stop false, no read from the reader after the stop, bytes read bounded by the last delivered element + decoder buffering; non-trivial = stop strictly inside the document",
 		Gen: func(t *rapid.T) XCase {
 			c := XCase{N: rapid.IntRange(1, 400).Draw(t, "n")}
 			c.K = rapid.IntRange(0, c.N+2).Draw(t, "k")
@@ -879,6 +889,7 @@ func TestXMLStop(t *testing.T) {
 				c.Filler = rapid.SampledFrom([]int{2000, 20000, 200000}).Draw(t, "filler")
 				c.FillerAfter = rapid.IntRange(0, c.N).Draw(t, "fillerAfter")
 				c.CancelInFiller = rapid.Bool().Draw(t, "cancelInFiller")
+				c.FillerKind = rapid.IntRange(0, 2).Draw(t, "fillerKind")
 				if c.CancelInFiller {
 					c.CutAt = 0
 				}
